@@ -19,7 +19,7 @@ DRIVER = os.path.join(core.VERIF, "harness", "overlay", "neutrino", "zz_verif_re
 DRIVER_FREE = os.path.join(core.VERIF, "harness", "overlay", "neutrino", "zz_verif_rescan_free_test.go")
 PKG = core.REPO
 
-READY = False
+READY = True
 PROPERTIES = ["C09"]
 
 MANIFEST = {
